@@ -925,3 +925,54 @@ Proof.
   - reflexivity.
   - exact (Ha (t :: its) eq_refl).
 Qed.
+
+(* ---------------- what acceptance by the checker means ---------------- *)
+Lemma zlist_eqb_eq : forall a b, zlist_eqb a b = true -> a = b.
+Proof.
+  induction a as [|x a IH]; intros [|y b] H; cbn in H; try discriminate; [reflexivity|].
+  apply andb_true_iff in H. destruct H as [H1 H2]. apply Z.eqb_eq in H1. subst. f_equal. apply IH. exact H2.
+Qed.
+
+Lemma step_at_later t : forall rows cur, (forall r, In r rows -> t < fst r) -> step_at rows t cur = cur.
+Proof.
+  induction rows as [|[t' cs] r IH]; intros cur H; [reflexivity|]. cbn [step_at].
+  assert (Qleb t' t = false) as -> by (apply qleb_f; apply (H (t', cs)); left; reflexivity).
+  apply IH. intros x Hx. apply H. right. exact Hx.
+Qed.
+
+Lemma step_at_row : forall rows t cs cur, StronglySorted Qlt (map fst rows) -> In (t, cs) rows ->
+  step_at rows t cur = Some cs.
+Proof.
+  induction rows as [|[t' cs'] r IH]; intros t cs cur Hs Hin; [destruct Hin|].
+  cbn [map fst] in Hs. destruct (StronglySorted_inv Hs) as [Hs' Hh]. rewrite Forall_forall in Hh.
+  cbn [step_at]. destruct Hin as [Hin|Hin].
+  - inversion Hin; subst. rewrite (proj2 (qleb_t t t) (Qle_refl t)). apply step_at_later.
+    intros x Hx. apply Hh. apply in_map. exact Hx.
+  - assert (t' < t) as Hlt by (apply Hh; apply in_map_iff; exists (t, cs); split; [reflexivity|exact Hin]).
+    rewrite (proj2 (qleb_t t' t) (Qlt_le_weak _ _ Hlt)). apply IH; assumption.
+Qed.
+
+(* acceptance: the histories are legal and, at every change time, the returned time
+   series (read as a step function) gives the number of nodes by node_status *)
+Lemma consistent_meaning iv arrays tmin mv ps : iv_ps iv = Some ps -> consistent_b iv arrays tmin mv = true ->
+  (forall u, In u (iv_nodes iv) -> exists h, hist_of iv u = Ok h /\ good_histb ps mv tmin h = true) /\
+  exists rows, summary iv None = Ok rows /\
+    (forall u h x, In u (iv_nodes iv) -> hist_of iv u = Ok h -> In x h -> exists t, In t (map fst rows) /\ t == fst x) /\
+    forall t, In t (map fst rows) -> step_at arrays t None = Some (map (count_at iv (iv_nodes iv) t) ps).
+Proof.
+  intros Hps H. destruct (consistent_sound iv arrays tmin mv H) as [ps' [rows [Eps [Hg [Es Ss]]]]].
+  unfold possible_statuses in Eps. rewrite Hps in Eps. inversion Eps; subst ps'. clear Eps.
+  split; [exact Hg|]. exists rows. split; [exact Es|].
+  assert (Hne : iv_nodes iv <> []).
+  { intro E. rewrite summary_all, E in Es. unfold summary, possible_statuses in Es. rewrite Hps in Es. cbn in Es. discriminate. }
+  assert (Hwf : forall u, In u (iv_nodes iv) -> exists h, hist_of iv u = Ok h /\ wf_histb ps tmin h = true).
+  { intros u Hu. destruct (Hg u Hu) as [h [Eh G]]. exists h. split; [exact Eh|]. unfold good_histb in G. apply andb_true_iff in G. exact (proj1 G). }
+  destruct (summary_spec iv ps tmin (iv_nodes iv) Hps Hne Hwf) as [rows' [Er [_ [Rs [R4 [_ R6]]]]]].
+  rewrite <- summary_all, Es in Er. inversion Er; subst rows'. clear Er.
+  split; [exact R6|]. intros t Ht. apply in_map_iff in Ht. destruct Ht as [[t' cs] [Et Hin]]. cbn in Et. subst t'.
+  unfold same_series in Ss. rewrite forallb_forall in Ss.
+  assert (In t (map fst rows ++ map fst arrays)) as Hin' by (apply in_or_app; left; apply in_map_iff; exists (t, cs); split; [reflexivity|exact Hin]).
+  specialize (Ss t Hin'). rewrite (step_at_row rows t cs None Rs Hin) in Ss.
+  destruct (step_at arrays t None) as [cs'|]; [|discriminate]. cbn in Ss. apply zlist_eqb_eq in Ss. subst cs'.
+  f_equal. exact (proj2 (R4 t cs Hin)).
+Qed.
